@@ -5,6 +5,11 @@ ROOT = os.path.dirname(os.path.dirname(os.path.abspath(__file__)))
 BASE_OFF = "cd /repo && env -u BUIDL_VERIF_TRACE /venv/bin/python -m pytest -ra -q -p no:cacheprovider --timeout=900 --continue-on-collection-errors"
 
 CLAIMED = {
+ "C13": dict(
+   text="TLC evaluates the MuSig aggregation algebra exactly as MuSigTapScript implements it (key coefficients, two-nonce binding factor, parity-dependent negation of nonce and secret, taproot tweak with its parity branch) over a toy curve for all secrets and for coefficient / nonce / binding / challenge / tweak values from small sets: the summed partial signatures always form a valid BIP340 signature and all eight parity branches are exercised. On secp256k1, sessions with 2..5 keys of mixed parities, with and without merkle root (incl. several roots on one object), are decided in the discrete-log representation from certified tagged-hash rows whose inputs TLC builds itself; sessions with a dropped, altered or duplicated partial must raise; aggregate keys are order independent; k-of-n trees own exactly the k-subsets (TLC set computation) and sampled leaf spends verify through Tx.verify_input.",
+   design="3/C13",
+   note="Trusted: TLC, MuSigToy.tla / C13Cases.tla, hashlib tagged hashes, library point arithmetic and parities (C03). Key sets, nonces and messages sampled; n = 1 is outside TapRootMultiSig's domain (MuSig of one key is undefined).",
+   technique="TLA+ MuSig algebra checked by TLC on a toy group + TLC scalar-model validation of recorded secp256k1 sessions and k-of-n trees"),
  "C12": dict(
    text="TLC grows every labelled binary tree shape up to a bound (Split action) with free-constructor hashes and checks for every leaf that the merkle path recomputes the tree hash, control blocks round-trip, mirroring subtrees keeps the root and any alteration of leaf script, leaf version, a path hash or the path length changes it. For real trees of 1..8 leaves (mixed leaf versions, duplicate scripts, internal keys of both parities) TLC recomputes the tree hash and every leaf's control block from the certified tagged-hash rows the library actually computed, checks the tweak algebra in the discrete-log representation (tweaked private key = dlog of the output key, parity) with certificates, and decides single-byte alterations of control blocks and leaf scripts.",
    design="3/C12",
